@@ -174,6 +174,10 @@ func TestVerifC06(t *testing.T) {
 		runOne(vL(vZ(1), vB(append([]byte{byte(m)}, r.bytes(r.rng(1, 24))...))))
 		k.count("marker-sweep", "markers")
 	}
+	for _, t := range vC05Boundary(r) {
+		runOne(vL(vZ(0), vC05ToSx(t)))
+		runOne(vL(vZ(1), vB(append(vC05RefEncode(t), 9))))
+	}
 	n := k.N(3000, 100000)
 	for i := 0; i < n; i++ {
 		switch x := r.intn(20); {
